@@ -11,6 +11,7 @@ import (
 	"sort"
 	"strings"
 	"sync"
+	"sync/atomic"
 
 	"github.com/agglayer/aggkit/bridgesync"
 	aggkitdb "github.com/agglayer/aggkit/db"
@@ -55,7 +56,22 @@ func cloneBlock(kind string, b aggsync.Block) aggsync.Block {
 	}
 }
 
+// realOpens counts stores opened through the repository's own constructors in this process. Each
+// such open leaks one database handle inside db.RunMigrations (3 file descriptors in WAL mode; the
+// process limit is 20000), so after realOpenBudget of them openStore switches to the template /
+// WithDB path, which runs the same code except for the constructor and the migration call.
+var realOpens atomic.Int64
+
+const realOpenBudget = 4500
+
 func openStore(kind, path string) (*store, error) {
+	if realOpens.Add(1) > realOpenBudget {
+		return openStoreFast(kind, path, 1)
+	}
+	return openStoreReal(kind, path)
+}
+
+func openStoreReal(kind, path string) (*store, error) {
 	switch kind {
 	case "bridge":
 		s, err := bridgesync.VerifNewBridgeSync(path, "verif", 1)
@@ -97,7 +113,7 @@ func templateBytes(kind string) ([]byte, error) {
 		return b, nil
 	}
 	path := filepath.Join(scratchDir("tmpl"), kind+".sqlite")
-	s, err := openStore(kind, path)
+	s, err := openStoreReal(kind, path) // the template itself is always built by the real constructor
 	if err != nil {
 		return nil, err
 	}
@@ -137,6 +153,12 @@ func openStoreFast(kind, path string, originNetwork uint32) (*store, error) {
 		return &store{Kind: kind, Path: path, Facade: s, DB: dbh, process: s.VerifProcessBlock, reorg: s.VerifReorg, Proc: s.VerifProcessor()}, nil
 	case "l1info":
 		s, err := l1infotreesync.VerifNewWithDB(path, dbh)
+		if err != nil {
+			return nil, err
+		}
+		return &store{Kind: kind, Path: path, Facade: s, DB: dbh, process: s.VerifProcessBlock, reorg: s.VerifReorg, Proc: s.VerifProcessor()}, nil
+	case "ger":
+		s, err := lastgersync.VerifNewWithDB(path, dbh)
 		if err != nil {
 			return nil, err
 		}
